@@ -23,7 +23,8 @@ func init() {
 			"Added after blind round 4: the prefix/suffix predicates (bytes.HasPrefix/HasSuffix or a hand-written test that agrees with them on the length/equality table). " +
 			"Added after blind round 5: a handle is removed only on exits that finished the transaction (shared with C17). " +
 			"Added after blind round 7: the sweeper's idle criterion cross-listed from C17 (the service runs the sweep at every BeginTransaction RPC). " +
-			"Added after blind round 8: a handler that fills a repeated field in a loop allocates each element inside the loop; handlers write no fields of the server object.",
+			"Added after blind round 8: a handler that fills a repeated field in a loop allocates each element inside the loop; handlers write no fields of the server object. " +
+			"Added after blind round 9: a mutating handler reports success only behind the embedded call of its row; the limit facts are seen through a predicate helper.",
 		NotDecided: "equality of responses with the embedded API for all request sequences and data sets; gRPC transport behaviour; connection-bound transaction cleanup; GetStats contents.",
 		Rules:      []func(*Ctx, *Reporter){ruleC19Delegation, ruleC19Limits, ruleC19Rejection, ruleC19Handles, ruleC19ScanOptions, ruleScanConsumers, ruleEmptyNotDeleted, ruleFilter, ruleTxOrphanRemoval, subRules(ruleTxStale, "cleanup-criteria"), ruleHandlersAppendFreshElements, ruleHandlersKeepNoState, ruleServiceSuccessOnlyAfterEngine},
 	})
@@ -272,7 +273,29 @@ func ruleC19Delegation(c *Ctx, r *Reporter) {
 // lenFact builds the fact "len(<field>) <op-holds>" for a request field compared with a limit field or zero.
 // kind: "nonempty" (len != 0), "key<=max" / "value<=max" / "batch<=max".
 func c19LenFact(field string, limitField string) Fact {
+	return c19LenFactBound(field, limitField, func(v ssa.Value) ssa.Value { return v }, 0)
+}
+
+// c19LenFactBound: the same fact seen through a predicate helper (`if s.badKeySize(req.Key)`): a call of a module function
+// with one boolean result and one return is judged on its return expression, the helper's parameters bound to the
+// arguments of the call.
+func c19LenFactBound(field string, limitField string, bind func(ssa.Value) ssa.Value, depth int) Fact {
 	return func(cond ssa.Value) (bool, bool) {
+		if call, isCall := cond.(*ssa.Call); isCall && depth < 2 {
+			if h := call.Call.StaticCallee(); h != nil && len(h.Blocks) > 0 && strings.HasPrefix(pkgOf(h), "pkg/") && h.Signature.Results().Len() == 1 && h.Signature.Results().At(0).Type().String() == "bool" {
+				if rets := Returns(h); len(rets) == 1 {
+					inner := func(v ssa.Value) ssa.Value {
+						for i, prm := range h.Params {
+							if v == ssa.Value(prm) && i < len(call.Call.Args) {
+								return bind(call.Call.Args[i])
+							}
+						}
+						return v
+					}
+					return withNot(c19LenFactBound(field, limitField, inner, depth+1))(ReturnValue(rets[0], 0))
+				}
+			}
+		}
 		bo, ok := cond.(*ssa.BinOp)
 		if !ok {
 			return false, false
@@ -283,7 +306,7 @@ func c19LenFact(field string, limitField string) Fact {
 				return false
 			}
 			b, isB := call.Call.Value.(*ssa.Builtin)
-			return isB && b.Name() == "len" && reqFieldName(call.Call.Args[0]) == field
+			return isB && b.Name() == "len" && reqFieldName(bind(call.Call.Args[0])) == field
 		}
 		if limitField == "" { // non-empty: len ⋈ k in every spelling (len == 0, len < 1, 0 == len, 1 > len, len != 0, len >= 1, ...)
 			x, y, op := bo.X, bo.Y, bo.Op
@@ -696,21 +719,40 @@ func ruleC19Handles(c *Ctx, r *Reporter) {
 			continue
 		}
 		// removal on every exit after the found edge
+		// a removal: Registry.Remove, or a same-receiver helper of the handler that calls it unconditionally
+		removes := func(call ssa.CallInstruction) bool {
+			if opName(call) == "Registry.Remove" {
+				return true
+			}
+			h := call.Common().StaticCallee()
+			if h == nil || len(h.Blocks) == 0 || recvTypeName(h) != recvTypeName(fn) {
+				return false
+			}
+			var rets []ssa.Instruction
+			for _, ret := range Returns(h) {
+				rets = append(rets, ret)
+			}
+			miss, _ := MustPass(h, rets, func(i ssa.Instruction) bool {
+				c2, ok := i.(ssa.CallInstruction)
+				return ok && opName(c2) == "Registry.Remove"
+			})
+			return miss == nil
+		}
 		isRemove := func(ins ssa.Instruction) bool {
 			switch x := ins.(type) {
 			case *ssa.Defer:
 				if mc, ok := x.Call.Value.(*ssa.MakeClosure); ok {
 					rm := false
 					AllInstrs(mc.Fn.(*ssa.Function), false, func(_ *ssa.Function, y ssa.Instruction) {
-						if call, ok := y.(ssa.CallInstruction); ok && opName(call) == "Registry.Remove" {
+						if call, ok := y.(ssa.CallInstruction); ok && removes(call) {
 							rm = true
 						}
 					})
 					return rm
 				}
-				return opName(x) == "Registry.Remove"
+				return removes(x)
 			case *ssa.Call:
-				return opName(x) == "Registry.Remove"
+				return removes(x)
 			}
 			return false
 		}
